@@ -5,6 +5,7 @@ package main
 import (
 	"fmt"
 	"go/types"
+	"io"
 	"os"
 	"strconv"
 	"strings"
@@ -443,6 +444,10 @@ func registerVerif(p *Program) {
 	// signals are not delivered in explored runs
 	p.reg("os/signal.Notify", func(e *Exec, g *G, a []Value) Value { return nil })
 	p.reg("os/signal.Stop", func(e *Exec, g *G, a []Value) Value { return nil })
+	p.reg("verif:verifDebugLogging", func(e *Exec, g *G, a []Value) Value {
+		e.userState["slog.debug"] = a[0].(*Term)
+		return nil
+	})
 	p.reg("verif:verifSchedFirst", func(e *Exec, g *G, a []Value) Value {
 		// explore which goroutine runs next at the first k points where the running one blocks;
 		// afterwards (and with k == 0) the deterministic order is used; no preemptions
@@ -1149,9 +1154,85 @@ func (e *Exec) concreteArg(v Value) (interface{}, bool) {
 				return t.Val == 1, true
 			}
 		}
+		// composite values of concrete scalars: rendered the way %v prints them
+		if txt, ok := e.renderConcrete(x.V, x.T, 0); ok {
+			return renderedText(txt), true
+		}
 		return nil, false
 	}
 	return nil, false
+}
+
+// renderedText prints as itself under every verb
+type renderedText string
+
+func (r renderedText) Format(f fmt.State, verb rune) { io.WriteString(f, string(r)) }
+
+func (e *Exec) renderConcrete(v Value, t types.Type, depth int) (string, bool) {
+	if depth > 4 || v == nil {
+		return "", false
+	}
+	if _, signed, ok := intWidth(t); ok {
+		tm, isT := v.(*Term)
+		if !isT || !tm.IsConst() {
+			return "", false
+		}
+		if signed {
+			return strconv.FormatInt(tm.SVal(), 10), true
+		}
+		return strconv.FormatUint(tm.Val, 10), true
+	}
+	if isString(t) {
+		sv, isS := v.(*StrV)
+		if !isS || sv.Kind != SConc {
+			return "", false
+		}
+		return sv.S, true
+	}
+	if isBool(t) {
+		tm, isT := v.(*Term)
+		if !isT || !tm.IsConst() {
+			return "", false
+		}
+		return strconv.FormatBool(tm.Val == 1), true
+	}
+	switch u := t.Underlying().(type) {
+	case *types.Struct:
+		sv, ok := v.(*StructV)
+		if !ok {
+			return "", false
+		}
+		parts := make([]string, len(sv.F))
+		for i := range sv.F {
+			p, ok := e.renderConcrete(sv.F[i], u.Field(i).Type(), depth+1)
+			if !ok {
+				return "", false
+			}
+			parts[i] = p
+		}
+		return "{" + strings.Join(parts, " ") + "}", true
+	case *types.Slice:
+		sl, ok := v.(SliceV)
+		if !ok {
+			return "", false
+		}
+		if sl.IsNil() {
+			return "[]", true
+		}
+		if sl.G == nil || !sl.Len.IsConst() || !sl.Off.IsConst() {
+			return "", false
+		}
+		var parts []string
+		for i := 0; i < int(sl.Len.Val); i++ {
+			p, ok := e.renderConcrete(e.load(sl.G.E[int(sl.Off.Val)+i]), u.Elem(), depth+1)
+			if !ok {
+				return "", false
+			}
+			parts = append(parts, p)
+		}
+		return "[" + strings.Join(parts, " ") + "]", true
+	}
+	return "", false
 }
 
 func (e *Exec) sliceToValues(s SliceV) []Value {
@@ -1469,6 +1550,11 @@ func slogPolicy(p *Program, fn *ssa.Function) intrinsicFn {
 	return func(e *Exec, g *G, a []Value) Value {
 		switch name {
 		case "Enabled":
+			// verifDebugLogging(true): every level is enabled (messages are still not formatted,
+			// but the code that builds their arguments runs)
+			if v, ok := e.userState["slog.debug"]; ok && v.(*Term).IsTrue() {
+				return e.tc.Bool(true)
+			}
 			return e.tc.Bool(false)
 		case "New":
 			t := e.prog.namedType("log/slog", "Logger")
